@@ -622,7 +622,7 @@ def main(argv):
         for sub in cfg.get("sub", []):
             scfg = PROPS.get(sub, {})
             sn = scfg.get("n_quick", 500) if tier == "quick" else scfg.get("n_thorough", 20000)
-            corpus_res += [dict(r, cls=sub + ":" + r.get("cls", "")) for r in run_corpus(sub, tier)]
+            corpus_res += [dict(r, cls=sub + ":" + r.get("cls", ""), sub=sub) for r in run_corpus(sub, tier)]
             r2, st2, e2 = exec_cases(sub, tier, seed, sn, workers, "cases", log)
             results += [dict(r, cls=sub + ":" + r.get("cls", ""), sub=sub) for r in r2]
             for c, v in st2.get("classes", {}).items():
@@ -652,6 +652,8 @@ def main(argv):
             rep = min(rs[:50], key=lambda r: len(r["input"]))
             small = shrink(rep.get("sub", prop), rep, budget_s=30 if tier == "quick" else 120, tier=tier)
             small["sub"] = rep.get("sub", prop)
+            if small["sub"] != prop and not small.get("cls", "").startswith(small["sub"] + ":"):
+                small["cls"] = small["sub"] + ":" + small.get("cls", "")
             sig2 = signature(prop, small)
             kn = [k for k in known if k["prop"] == prop and k["sig"] in (sig, sig2)]
             if kn:
@@ -741,6 +743,8 @@ def main(argv):
         len([r for r in allres if r["agree"]]), len(diffs), len(viols), nontriv, wall))
     for l in out_lines:
         print(l)
+    for c in corr_broken:
+        print("NOTE: " + c.replace("\n", " | ")[:600])
     with open(os.path.join(OUT, prop, "last.log"), "w") as f:
         f.write("\n".join(log))
     sys.exit(exit_code)
